@@ -166,6 +166,34 @@ def run(ctx):
         ctx.case("r1")
         ctx.case("r2")
         return
+    # directed part: every loop template (gates with and without wait_for, exits, nested, two-signal gates ...)
+    sysn = 0
+    for N in (1, 3) if ctx.tier == "quick" else (0, 1, 2, 3, 5):
+        for t in loops.systematic_templates(N):
+            sysn += 1
+            if ctx.shard[0] != sysn % ctx.shard[1] or t.get("mechanism") or t["template"].startswith("const-feed"):
+                # (the equal-value-reproduction template belongs to C04, where its known finding is recorded)
+                continue
+            spec, base, loop_ref = t["spec"], t["inputs"], t["ref"]
+            spec.setdefault("selectors", [])
+            for runner in ("sync", "async"):
+                one(ctx, spec, base, runner, rt.Sched(default="rand", rng=ctx.rng) if runner == "async" else None, f"loop-{runner}", loop_ref=loop_ref)
+            ctx.obs["systematic_loop_templates"] += 1
+            ctx.case({"loop": t["template"], "N": N, "directed": True}, True)
+    # directed part: a target shared by an open gate that has decided and a closed gate that has not
+    for order in (0, 1, 2):
+        for lag, kind in ((1, "route"), (2, "route"), (2, "ifelse"), (3, "route")):
+            sysn += 1
+            if ctx.shard[0] != sysn % ctx.shard[1]:
+                continue
+            spec = gen.mixed_open_gates(order, lag, kind)
+            for sv in (0, 1):
+                for av in (0, 1):
+                    inputs = {"s": sv, "a": av, "x": "run:x"}
+                    for runner in ("sync", "async"):
+                        one(ctx, spec, inputs, runner, rt.Sched(default="rand", rng=ctx.rng) if runner == "async" else None, f"mixed-open-{runner}")
+                        ctx.obs["mixed_open_gate_runs"] += 1
+            ctx.case({"mixed-open": order, "lag": lag, "kind": kind}, True)
     for i in range(n):
         rng = ctx.rng
         r = rng.random()
